@@ -1,0 +1,42 @@
+//go:build verif
+// +build verif
+
+package cluster
+
+import (
+	"fmt"
+	"time"
+
+	"github.com/ovrclk/akash/util/veriftrace"
+)
+
+// Verification trace points of the per-lease background loops (see
+// util/veriftrace): the deployment monitor and the lease withdrawal loop report
+// the top of every loop iteration (with the channels that are armed), the exit
+// of the loop and the end of run(). Instances are told apart by address.
+
+// VerifMonitorTimer, when set by a verification harness, supplies the channel
+// a deployment monitor waits on for its next check instead of the time.After
+// channel it scheduled. Returning nil keeps the real timer.
+var VerifMonitorTimer func(id string) <-chan time.Time
+
+func (m *deploymentMonitor) vid() string { return fmt.Sprintf("%s#%p", m.lease.String(), m) }
+
+func (m *deploymentMonitor) vt(event string, kv ...interface{}) {
+	veriftrace.Emit("cluster-monitor", m.vid(), event, kv...)
+}
+
+func (m *deploymentMonitor) vtTimer(ch <-chan time.Time) <-chan time.Time {
+	if fn := VerifMonitorTimer; fn != nil {
+		if c := fn(m.vid()); c != nil {
+			return c
+		}
+	}
+	return ch
+}
+
+func (dw *deploymentWithdrawal) vid() string { return fmt.Sprintf("%s#%p", dw.lease.String(), dw) }
+
+func (dw *deploymentWithdrawal) vt(event string, kv ...interface{}) {
+	veriftrace.Emit("cluster-withdrawal", dw.vid(), event, kv...)
+}
